@@ -107,6 +107,9 @@ type c01Case struct {
 
 type c01Key struct{}
 
+// fan-out value that marks a passthrough handler (returns the consumed message object itself)
+const c01Passthrough = 9
+
 func c01Name(m c01Msg) string {
 	parts := make([]string, len(m.Path))
 	for i, p := range m.Path {
@@ -230,13 +233,21 @@ func (c *c01Case) handler(stage int) message.HandlerFunc {
 			case <-c.done:
 			}
 		}()
-		// a handler may do what it likes with ITS copy: the next attempt must not see it
-		msg.Metadata.Set("lin", "77777")
-		msg.Metadata.Set("path", "9.9.9")
-		msg.Metadata.Set("attempt", strconv.Itoa(call))
-
+		fan := c.fan(stage, d.Msg.Lin%100000)
 		var outs []*message.Message
-		for j := 0; j < c.fan(stage, d.Msg.Lin%100000); j++ {
+		if fan == c01Passthrough {
+			// a passthrough handler: returns the CONSUMED object itself (same UUID, payload, metadata;
+			// the Router publishes the very object it is about to Ack)
+			msg.SetContext(context.WithValue(msg.Context(), c01Key{}, d))
+			outs = []*message.Message{msg}
+			fan = 0
+		} else {
+			// a handler may do what it likes with ITS copy: the next attempt must not see it
+			msg.Metadata.Set("lin", "77777")
+			msg.Metadata.Set("path", "9.9.9")
+			msg.Metadata.Set("attempt", strconv.Itoa(call))
+		}
+		for j := 0; j < fan; j++ {
 			o := c01Make(c01Msg{Lin: d.Msg.Lin, Path: append(append([]int{}, d.Msg.Path...), j)})
 			o.SetContext(context.WithValue(context.Background(), c01Key{}, d))
 			outs = append(outs, o)
@@ -284,7 +295,9 @@ func (p *c01Publisher) forward(d *c01Delivery, msgs []*message.Message) bool {
 	c.mu.Unlock()
 	// strip the harness' context value: what travels is the message, not the context
 	for _, m := range msgs {
-		m.SetContext(context.Background())
+		if m != d.copy { // (a passthrough output IS the consumed copy: its context stays)
+			m.SetContext(context.Background())
+		}
 	}
 	if err := p.real.Publish(p.topic, msgs...); err != nil {
 		c.mu.Lock()
@@ -393,10 +406,18 @@ func c01Run(rt *hookrt.Runtime, c *c01Case, stall time.Duration) {
 	for _, l := range c.FailSrc {
 		fail[l] = true
 	}
+	closedPS := gochannel.NewGoChannel(cfg, logger)
+	closedPS.Close()
 	publishSrc := func(lin int) {
 		if fail[lin] {
-			// the source publisher fails before anything reaches the topic
+			// a REAL failing source publish: the producer's Pub/Sub (a GoChannel with the same
+			// configuration) has been closed, Publish returns "Pub/Sub closed"; the message was never
+			// really published and must not show up anywhere
+			err := closedPS.Publish(topic(0), c01Make(c01Msg{Lin: lin, Path: []int{}}))
 			c.mu.Lock()
+			if err == nil {
+				c.Notes = append(c.Notes, "Publish on a closed Pub/Sub returned nil")
+			}
 			c.srcOpen--
 			c.touch()
 			c.mu.Unlock()
@@ -638,9 +659,11 @@ func c01Gen(rng *rand.Rand, id int, big bool) *c01Case {
 					if rng.Intn(3) == 0 {
 						row[i] = 0
 					}
+				case 4:
+					row[i] = c01Passthrough
 				}
 			}
-			if row[i] > maxFan {
+			if row[i] > maxFan && row[i] != c01Passthrough {
 				maxFan = row[i]
 			}
 		}
@@ -753,6 +776,7 @@ func cmdC01(args []string) error {
 		cases = append(cases, c01Singles(&id, 2, 2, [][]int{{1}, {2}}, false, false, 1)...)
 		cases = append(cases, c01Singles(&id, 2, 1, [][]int{{2}, {1}}, true, false, 0)...)
 		cases = append(cases, c01Singles(&id, 3, 1, [][]int{{1}, {1}, {1}}, false, true, 0)...)
+		cases = append(cases, c01Singles(&id, 2, 1, [][]int{{c01Passthrough}, {2}}, false, false, 0)...)
 	}
 	if *doubles {
 		cases = append(cases, c01Doubles(&id)...)
